@@ -22,6 +22,8 @@ use crate::endpoint::RelayStatus;
 mod actor;
 
 pub(crate) use self::actor::{Config as RelayActorConfig, HomeRelayWatch, RelayConnectionState};
+#[cfg(feature = "verif-hooks")]
+pub(crate) use self::actor::verif_active::VerifActiveRelay;
 use self::actor::{RelayActor, RelayActorMessage, RelayRecvDatagram, RelaySendItem};
 
 type RelayAddrWatcher =
